@@ -42,9 +42,9 @@ type DrawRec struct {
 
 type ReadRec struct {
 	Site string `json:"site,omitempty"` // last major yield site before the read
-	Req int    `json:"req"`
-	Got int    `json:"got"`
-	Err string `json:"err,omitempty"`
+	Req  int    `json:"req"`
+	Got  int    `json:"got"`
+	Err  string `json:"err,omitempty"`
 }
 
 type Tape struct {
@@ -65,9 +65,9 @@ type Tape struct {
 	dead     error // a fault delivered an error: every later read fails too
 	// probes
 	CharLists [][]string // every alphabet list handed to Generate (after H2), in call order
-	lastSite string
-	Unbound int // words served for reads no bounded draw announced (redraws, raw reads)
-	limit   int
+	lastSite  string
+	Unbound   int // words served for reads no bounded draw announced (redraws, raw reads)
+	limit     int
 }
 
 var errInjected = errors.New("injected read fault")
